@@ -28,7 +28,7 @@ def gen_action(r, pre, rule_len, max_ops=14, allow=("next", "insert", "delete", 
                     slotref -= 1
                 kinds.append(k)
         elif k == "delete":
-            if out_index >= pre and -1 <= out_index - 1 <= out_length - 1:
+            if pre <= out_index < out_length and -1 <= out_index - 1 <= out_length - 1:
                 prog.append(DELETE); out_index -= 1; out_length -= 1; kinds.append(k)
         elif k == "put_copy":
             refs = [i for i in range(-4, 5) if ref_ok(i)]
@@ -49,9 +49,19 @@ def gen_action(r, pre, rule_len, max_ops=14, allow=("next", "insert", "delete", 
                 kinds.append(k)
         elif k == "attr":
             if ctx_ok:
-                if r.random() < 0.3:
-                    # attr_add: not idempotent, so a pass that runs twice shows (advance / attach offset / shift, x and y)
-                    prog += [PUSH_BYTE, r.randrange(256), 36, r.choice([SLAT_ADVX, 1, 3, 4, 20, 21])]; kinds.append(k)
+                m = r.random()
+                refs = [i for i in range(-4, 5) if ref_ok(i)]
+                if m < 0.25:
+                    # attr_add / attr_sub: not idempotent, so a pass that runs twice shows (advance / attach offset / shift, x and y)
+                    prog += [PUSH_BYTE, r.randrange(256), r.choice([36, 36, 37]), r.choice([SLAT_ADVX, 1, 3, 4, 20, 21])]; kinds.append(k)
+                elif m < 0.45 and refs:
+                    # the value comes from another slot of the rule (push_slot_attr) or from a glyph attribute of it (push_glyph_attr):
+                    # a slot that was changed earlier in the rule and is read here makes the loader insert a temp_copy for it
+                    if r.random() < 0.6:
+                        prog += [40, r.choice([SLAT_ADVX, 1, 3, 4, 20, 21, 2]), r.choice(refs) & 255]
+                    else:
+                        prog += [60, 0, r.choice([0, 2, 3]), r.choice(refs) & 255]
+                    prog += [ATTR_SET, r.choice([SLAT_ADVX, 1, 3, 4, 20, 21])]; kinds.append(k)
                 else:
                     prog += [PUSH_BYTE, r.randrange(256), ATTR_SET, r.choice([SLAT_ADVX, SLAT_INSERT, 1, 3, 4, 20, 21])]; kinds.append(k)
     if r.random() < 0.5:
